@@ -205,6 +205,23 @@ def main_():  # noqa
     if unmodelled:
         os.environ['SIM_RACES_ADVISORY'] = '1'
         print('NOTE: the library now uses synchronisation the simulator does not model (%s): race reports are advisory, result divergence decides' % ', '.join(sorted(unmodelled)))
+    # stored reproducers of open findings: replayed in a fresh process on every run, so that each listed finding that still reproduces on
+    # this tree is named (KNOWN-FINDING line) whether or not the seeded sample happens to meet it
+    known_hits = {}
+    for k in known:
+        rp = k.get('reproducer')
+        if k.get('status') != 'open' or k.get('property') != pid or not rp:
+            continue
+        v = rp.get('variant', phases[0]['variant'])
+        if v not in binaries:
+            binaries[v], libdirs[v] = build(v, engine)
+        rep = run_replay(binaries[v], rp['plan'], pid, tmpdir, timeout=300)
+        if rep['kind'] in ('violation', 'crash') and match_known(known, pid, rep['cls'], rep.get('msg', '')) is k:
+            jpath = os.path.join(VERIF, 'replays', '%s-known-%s.json' % (pid, k.get('id', 'finding')))
+            json.dump(plan_to_replay_json(pid, engine, v, 0, '\n'.join(rp['plan']), rep['cls'], rep.get('msg', ''), rep.get('hash', '')), open(jpath, 'w'), indent=1)
+            known_hits[k.get('id', k['what'][:40])] = dict(k=k, n=1, replay=jpath)
+        else:
+            print('NOTE: the stored reproducer of listed finding %s no longer fails on this tree (%s)' % (k.get('id', '?'), rep['kind']))
     agg = dict(runs=0, steps_total=0, steps_max=0, switches_total=0, threads_total=0, counters={}, strategies={}, violation_classes={}, samples=[], nondet=0, infra=0, variants={}, phases=[])
     distinct = set()
     nontrivial_runs = 0
@@ -310,7 +327,7 @@ def main_():  # noqa
         agg['phases'].append(dict(name=ph['name'], variant=ph['variant'], runs=ph_runs, wall_s=round(time.time() - tph, 2)))
 
     # ---- gate and classify violations --------------------------------------------------------
-    reported, known_hits, sim_faults = [], {}, list(infra_msgs)
+    reported, sim_faults = [], list(infra_msgs)   # known_hits already holds the listed findings whose stored reproducer failed
     seen_classes = {}
     for variant, vseed, planpath, cls, msg in vlines:
         key = (cls, re.sub(r'\d+', '#', msg)[:80])
